@@ -94,7 +94,17 @@ def canon_series(s):
 
 
 def check(fr, order):
+    """the frame oracles; failures found before an oracle further down trips over a malformed result are kept"""
     fails = []
+    try:
+        return _check(fr, order, fails)
+    except Exception:
+        if fails:
+            return {"fails": fails}
+        raise
+
+
+def _check(fr, order, fails):
     ts = typeset_for(order)
 
     def add(prop, sig, what):
